@@ -6,7 +6,7 @@ import ast
 
 from ..kinds import is_frac
 from ..source import norm_text
-from .geo import all_geos, geo_text, kind_errors, uniq_events
+from .geo import all_geos, geo_text, kind_errors, under, uniq_events
 
 TRAJ = 'gemdat.trajectory.Trajectory'
 ACCESSORS = {f'{TRAJ}.positions', f'{TRAJ}.displacements', f'{TRAJ}.to_positions'}
@@ -114,7 +114,7 @@ def check_cumulative(ctx, rule='R4'):
            'running sum over the frame axis of minimum-image steps' if ok else
            f'not built from minimum-image steps accumulated over frames: {", ".join(geo_text(g) for g in gs) or "unknown"}'
            ' (wrapped positions differ by lattice translations, so the result changes under whole-cell shifts)')
-    for e in uniq_events(it, {'store'}, lambda f: f.qualname == fi.qualname):
+    for e in uniq_events(it, {'store'}, under(fi.qualname)):
         b = e['base']
         if b is not None and e['kind'] != 'attr' and (b.store or '').startswith('attr:Trajectory'):
             ctx.ob(rule, fi, e['node'], False, 'the running sum is written into the stored displacements of the trajectory: a second query on the '
@@ -130,7 +130,7 @@ def check_cumulative(ctx, rule='R4'):
                'metric lengths of the unwrapped displacements' if ok else f'returned value is {", ".join(geo_text(g) for g in gs)}')
     # _lengths: contraction with the metric tensor on both sides
     fl = ctx.fn('gemdat.trajectory._lengths')
-    ein = [e for e in uniq_events(it2, {'einsum', 'dot'}, lambda f: f.qualname == fl.qualname)]
+    ein = [e for e in uniq_events(it2, {'einsum', 'dot'}, under(fl.qualname))]
     lens_ret = None
     for r in ast.walk(fl.node):
         if isinstance(r, ast.Return) and r.value is not None:
@@ -152,7 +152,7 @@ def check_cumulative(ctx, rule='R4'):
 def check_volume_input(ctx):
     fi = ctx.fn('gemdat.volume.trajectory_to_volume')
     it = ctx.entry(fi.qualname)
-    evs = uniq_events(it, {'digitize'}, lambda f: f.qualname == fi.qualname)
+    evs = uniq_events(it, {'digitize'}, under(fi.qualname))
     for e in evs:
         gs = all_geos(e['x'])
         ok = bool(gs) and all(is_frac(g) and g[1] == 'W' for g in gs)
